@@ -1,15 +1,24 @@
 #include <occa/internal/core/device.hpp>
 #include <occa/internal/core/stream.hpp>
+#ifdef LIBOCCA_OCCA_VERIF
+#include <occa/internal/verif.hpp>
+#endif
 
 namespace occa {
   modeStream_t::modeStream_t(modeDevice_t *modeDevice_,
                              const occa::json &properties_) :
     properties(properties_),
     modeDevice(modeDevice_) {
+#ifdef LIBOCCA_OCCA_VERIF
+    verif::liveAdd(verif::clsStream, 1);
+#endif
     modeDevice->addStreamRef(this);
   }
 
   modeStream_t::~modeStream_t() {
+#ifdef LIBOCCA_OCCA_VERIF
+    verif::liveAdd(verif::clsStream, -1);
+#endif
     // NULL all wrappers
     while (streamRing.head) {
       stream *mem = (stream*) streamRing.head;
